@@ -391,6 +391,11 @@ func (m *Machine) floatBinop(op token.Token, x, y value) value {
 		}
 		panic(engineFault{fmt.Sprintf("float binop %s", op)})
 	}
+	if op == token.MUL && m.h.Params["abstractMul"] == 1 {
+		if r, ok := m.abstractConstMul(x, y, bits); ok {
+			return r
+		}
+	}
 	var name string
 	switch op {
 	case token.ADD:
@@ -773,4 +778,74 @@ func (m *Machine) mergeValues(c *Term, a, b value) (value, bool) {
 		}
 	}
 	return nil, false
+}
+
+// abstractConstMul (harness option abstractMul=1, fp mode): the product of a
+// finite non-zero constant c (2^-100 <= |c| <= 2^100) and a symbolic float X
+// is replaced by a fresh float P constrained only by facts that hold for every
+// IEEE-754 round-to-nearest product:
+//
+//	P is NaN iff X is NaN;   sign(P) = sign(c) xor sign(X);
+//	X zero => P zero;        X infinite => P infinite;
+//	P zero => X zero or |X| <= 2^-900;   P infinite => X infinite or |X| >= 2^900.
+//
+// This over-approximates the real function, so "unsat" carries over to the
+// real code; a model found under the abstraction is only reported after it
+// reproduces natively (the driver re-runs the harness with the precise
+// encoding to look for a concrete counterexample).
+func (m *Machine) abstractConstMul(x, y value, bits int) (value, bool) {
+	cf, xc := concFloat(x)
+	other := y
+	if !xc {
+		cf, xc = concFloat(y)
+		other = x
+		if !xc {
+			return nil, false
+		}
+	}
+	sx, ok := other.(symFloat)
+	if !ok || cf == 0 || math.IsNaN(cf) || math.IsInf(cf, 0) {
+		return nil, false
+	}
+	if a := math.Abs(cf); a < math.Ldexp(1, -100) || a > math.Ldexp(1, 100) {
+		return nil, false
+	}
+	srt := m.floatSort(bits)
+	tt := m.tt
+	precise := tt.App("fp.mul RNE", srt, m.floatTerm(x), m.floatTerm(y))
+	p := m.freshInternal("cmul", precise, srt)
+	if m.absDone == nil {
+		m.absDone = map[*Term]bool{}
+	}
+	if !m.absDone[p] {
+		m.absDone[p] = true
+		m.h.noteStub("abstractMul: constant*symbolic products replaced by sign/zero/infinity-respecting fresh floats (over-approximation)")
+		X := sx.t
+		isNaN := func(t *Term) *Term { return tt.App("fp.isNaN", sortBool, t) }
+		isNeg := func(t *Term) *Term { return tt.App("fp.isNegative", sortBool, t) }
+		isZero := func(t *Term) *Term { return tt.App("fp.isZero", sortBool, t) }
+		isInf := func(t *Term) *Term { return tt.App("fp.isInfinite", sortBool, t) }
+		lit := func(f float64) *Term {
+			if bits == 32 {
+				return tt.FP32Lit(float32(f))
+			}
+			return tt.FP64Lit(f)
+		}
+		absX := tt.App("fp.abs", srt, X)
+		m.addPC(tt.Eq(isNaN(p), isNaN(X)))
+		if cf > 0 {
+			m.addPC(tt.Or(isNaN(X), tt.Eq(isNeg(p), isNeg(X))))
+		} else {
+			m.addPC(tt.Or(isNaN(X), tt.Eq(isNeg(p), tt.Not(isNeg(X)))))
+		}
+		m.addPC(tt.Implies(isZero(X), isZero(p)))
+		m.addPC(tt.Implies(isInf(X), isInf(p)))
+		small, big := math.Ldexp(1, -900), math.Ldexp(1, 900)
+		if bits == 32 {
+			small, big = math.Ldexp(1, -20), math.Ldexp(1, 20)
+		}
+		m.addPC(tt.Implies(isZero(p), tt.Or(isZero(X), tt.App("fp.leq", sortBool, absX, lit(small)))))
+		m.addPC(tt.Implies(isInf(p), tt.Or(isInf(X), tt.App("fp.geq", sortBool, absX, lit(big)))))
+	}
+	return symFloat{p, bits}, true
 }
